@@ -12,6 +12,7 @@ import (
 	"verif/harness/monitors/c15"
 	"verif/harness/monitors/c16"
 	"verif/harness/monitors/c17"
+	"verif/harness/monitors/pipe"
 	"verif/harness/report"
 )
 
@@ -26,11 +27,29 @@ func main() {
 	tier := fs.String("tier", "quick", "tier")
 	out := fs.String("out", "", "result file")
 	replay := fs.String("replay", "", "replay file")
+	dir := fs.String("dir", "", "project directory (pipeline monitors)")
+	config := fs.String("config", "gleece.config.json", "config file (pipeline monitors)")
+	history := fs.String("history", "GVI", "call history (rerun)")
 	_ = fs.Parse(os.Args[2:])
 	debug.SetGCPercent(800)
 
 	var res *report.Result
 	switch mon {
+	case "validate", "rerun":
+		var v any
+		if mon == "validate" {
+			v = pipe.Validate(*dir, *config)
+		} else {
+			v = pipe.Rerun(*dir, *config, *history)
+		}
+		b, _ := json.Marshal(v)
+		if *out == "" {
+			fmt.Println(string(b))
+		} else if err := os.WriteFile(*out, b, 0o644); err != nil {
+			fmt.Fprintln(os.Stderr, err)
+			os.Exit(2)
+		}
+		return
 	case "c15":
 		if *replay != "" {
 			var list []c15.Entry
